@@ -504,3 +504,25 @@ Example package_name_examples :
   package_name None None (s2l "My API v2") = s2l "my_api_v_2_client" /\
   project_name (Some []) (s2l "My API") = s2l "my-api-client".
 Proof. vm_compute. repeat split; reflexivity. Qed.
+
+(* ------------------------------------------------------------------------------------------------ 1b. writers and docstring literals *)
+Theorem all_writers_encoded : writers_ok = true.
+Proof. vm_compute. reflexivity. Qed.
+Theorem writers_sound : forall f site callee enc, In (f, site, callee, enc) gen_writers -> enc = true.
+Proof.
+  intros f site callee enc H. pose proof all_writers_encoded as W. unfold writers_ok in W. apply andb_true_iff in W. destruct W as [W _].
+  rewrite forallb_forall in W. exact (W _ H).
+Qed.
+Theorem docstring_literals_documented : docstring_literals_ok = true.
+Proof. vm_compute. reflexivity. Qed.
+Theorem docstring_literals_sound : forall f e, In (f, e) gen_docstring_literals ->
+  (f = s2l "templates/helpers.jinja" /\ e = s2l "content") \/ f = s2l "templates/client.py.jinja".
+Proof.
+  intros f e H. pose proof docstring_literals_documented as D. unfold docstring_literals_ok in D. rewrite forallb_forall in D.
+  specialize (D _ H). unfold docstring_literal_ok, documented_docstring_literals in D. cbn [existsb fst snd] in D.
+  rewrite orb_false_r in D. apply orb_true_iff in D. destruct D as [D|D]; apply andb_true_iff in D; destruct D as [D1 D2].
+  - left. apply str_eqb_eq in D1. apply pat_match_spec in D2. destruct D2 as [D2|D2].
+    + exfalso. vm_compute in D2. discriminate.
+    + split; [symmetry; exact D1|symmetry; exact D2].
+  - right. apply str_eqb_eq in D1. symmetry. exact D1.
+Qed.
